@@ -134,6 +134,7 @@ pub fn gen_multi(src: &mut Src, _i: usize) -> Case {
 fn enum_single() -> Vec<Case> {
     let cmds: Vec<String> = vec![
         "x", "\x1b[b", "\x1b[3b", "\n", "\x1bD", "\x1bE", "\x1bM", "\x1b[S", "\x1b[2T", "\x1b[L", "\x1b[2M", "\x1b[J", "\x1b[1J", "\x1b[2J", "\x1b[K", "\x1b[1K", "\x1b[2K", "\x1b[X", "\x1b[2X", "\x1b[@", "\x1b[2@", "\x1b[P", "\x1b[9P", "\x1b#8",
+        "\x1b[44m\x1b[K", "\x1b[44m\x1b[1K", "\x1b[44m\x1b[2K", "\x1b[44m\x1b[X", "\x1b[44m\x1b[P", "\x1b[44m\x1b[@", "\x1b[44m\x1b[J", "\x1b[44m\x1b[L", "\x1b[44m\x1b[M", "\x1b[44m\x1b[S", "\x1b[44m\x1b[T",
         "\x1b[?1049h", "\x1b[?1047h", "\x1b[?47h", "\x1b[?1049l", "\x1b[?1047l", "\x1bc", "\x1b[4hx", "xy", "\x1b[?7lxy", "\x0e`", "\x1b[41m\x1b[K", "\x1b[2;3r\n", "\x1b[2;3r\x1bM", "\x1b[!p", "\t", "\x08",
     ]
     .into_iter()
@@ -142,7 +143,7 @@ fn enum_single() -> Vec<Case> {
     let mut v = vec![];
     for (cols, rows) in [(1usize, 1usize), (2, 2), (3, 4), (5, 3)] {
         for alt in [false, true] {
-            for fill in [false, true] {
+            for fill in [0usize, 1, 2] {
                 for row in 0..rows {
                     for col in 0..=cols {
                         for cmd in &cmds {
@@ -150,7 +151,7 @@ fn enum_single() -> Vec<Case> {
                             if alt {
                                 setup.push_str("\x1b[?1047h");
                             }
-                            setup.push_str(&gen::fill_screen(cols, rows, fill));
+                            setup.push_str(&gen::fill_screen_mode(cols, rows, fill));
                             setup.push_str(&format!("\x1b[{};{}H", row + 1, col.min(cols - 1) + 1));
                             if col >= cols {
                                 setup.push('x');
@@ -169,7 +170,7 @@ pub fn run(env: &Env) -> PropRun {
     let j = |c: &Case, t: &mut Tally| judge("", c, t);
     let mut parts = vec![];
     let es = enum_single();
-    parts.push(run_part(env, "enum-single-commands", es.len(), true, "sizes {1x1,2x2,3x4,5x3} x primary/alternate x {wrapped,unwrapped} content x every cursor cell incl. wrap-pending x 40 single mutating commands", &|i| es.get(i).cloned(), &j));
+    parts.push(run_part(env, "enum-single-commands", es.len(), true, "sizes {1x1,2x2,3x4,5x3} x primary/alternate x {wrapped,unwrapped,sparse} content x every cursor cell incl. wrap-pending x 40 single mutating commands", &|i| es.get(i).cloned(), &j));
     parts.push(random_part(env, "single-op-calls", env.tier.scale(100_000, 40), &gen_single_ops, &j));
     parts.push(random_part(env, "multi-op-calls", env.tier.scale(80_000, 40), &gen_multi, &j));
     PropRun {
